@@ -73,6 +73,17 @@ public:
     return KEYWORDS[_builtin];
   }
 
+protected:
+  /**
+   * Returns the value an in-place method works on. The expression designates
+   * a variable or one of its elements, or it provides a temporary. But an
+   * operator or a built-in could hand back one of its operands as is, which
+   * is the storage of a variable: then the method must work on a copy.
+   */
+  Value& receiver(Context& ctx) const;
+
+public:
+
   static int findBuiltinKeyword(const std::string& s);
 
   static MemberExpression * parse(Parser& p, Context& ctx, Expression * exp);
